@@ -51,6 +51,10 @@ CHECKS = {
                  args=dict(quick=["-c10.burstname=burst-race", "-c10.stall=20s"], thorough=["-c10.burstname=burst-race"])),
             dict(name="pair", run="TestC10Pair", checks=dict(quick=60, thorough=300), shards=dict(quick=4, thorough=8),
                  args=dict(quick=["-c10.pairrounds=20000", "-c10.stall=20s"], thorough=["-c10.pairrounds=40000"])),
+            # the pair machinery on another family: accessors (Children, IsBranch, Value, String, visits, lookups through / on retained sub-tree nodes,
+            # the Reset idiom) against the root's transitions (emptying deletes, first Add into an empty tree, refill, queued deleters)
+            dict(name="pair-access", run="TestC10PairAccess", checks=dict(quick=40, thorough=300), shards=dict(quick=2, thorough=8),
+                 args=dict(quick=["-c10.pairrounds=8000", "-c10.stall=20s"], thorough=["-c10.pairrounds=30000"])),
         ],
     ),
     "C01": dict(
@@ -70,6 +74,11 @@ CHECKS = {
                dict(name="break", run="TestC01Break", checks=dict(quick=6, thorough=60), shards=dict(quick=4, thorough=8), timeout=dict(quick=600, thorough=1800),
                     args=dict(quick=["-c01.maxfill=6000", "-c01.maxstorm=4"], thorough=["-c01.maxfill=12000", "-c01.maxstorm=8"])),
                dict(name="resub", run="TestC01Resub", checks=dict(quick=8, thorough=80), shards=dict(quick=3, thorough=8), timeout=dict(quick=600, thorough=1800)),
+               # targets configured with several addresses of which one answers gNMI (the others refuse / stay silent / close / speak no TLS / abort the handshake), short -dial_timeout
+               dict(name="reach", run="TestC01Reach", checks=dict(quick=6, thorough=60), shards=dict(quick=3, thorough=8), timeout=dict(quick=600, thorough=1800)),
+               # single SubscribeResponses above 4 MiB (a few very large values, plain or atomic; thousands of updates; one value above 4 MiB) in the sync burst and after it
+               dict(name="size", run="TestC01Size", checks=dict(quick=6, thorough=60), shards=dict(quick=3, thorough=8), timeout=dict(quick=600, thorough=1800),
+                    args=dict(quick=["-c01.maxcount=20000", "-c01.maxnoti=10"], thorough=["-c01.maxcount=100000", "-c01.maxnoti=24"])),
                # real time: every case holds its streams idle for 35-45 s (about a minute per case whatever the machine) - thorough only
                dict(name="quiet", run="TestC01Quiet", tiers=("thorough",), checks=dict(thorough=1), shards=dict(thorough=4), timeout=dict(thorough=1200))],
     ),
@@ -597,7 +606,9 @@ CHECKS = {
               "distinct = distinct hash of the scenario"),
         assumptions=COMMON + ["cache.Now is stubbed with a scenario-controlled clock"],
         parts=[dict(name="random", run="TestC14Random", checks=dict(quick=2000, thorough=40000), shards=dict(quick=4, thorough=16)),
-               dict(name="subscribers", engine="subprop", run="TestC14Sub", checks=dict(quick=1500, thorough=30000), shards=dict(quick=4, thorough=8))],
+               dict(name="subscribers", engine="subprop", run="TestC14Sub", checks=dict(quick=1500, thorough=30000), shards=dict(quick=4, thorough=8)),
+               # every target driven by its own goroutine at once (collector shape): per-target sequential model, bystanders, structural deadlock verdict
+               dict(name="owners", run="TestC14Owners", checks=dict(quick=150, thorough=2500), shards=dict(quick=4, thorough=8))],
     ),
     "C15": dict(
         engine="cacheprop",
@@ -801,7 +812,18 @@ EXT = {
 # ---- rounds 3 and 4 (DESIGN.md 10.8, 10.9): further text per entry ------------------------------------------------
 EXT2 = {
     "C01": dict(level_text=(" Part resub: observers re-use one client.Query value (ONCE then STREAM, reconnecting clients whose connection to the collector is cut), string queries with '/' in "
-                            "elements and key values; stream breaks made by the collector itself (receive_timeout after scripted silence, Collector.Reconnect) after which the target may lack units.")),
+                            "elements and key values; stream breaks made by the collector itself (receive_timeout after scripted silence, Collector.Reconnect) after which the target may lack units."
+                            " Part reach: targets configured with several addresses (1-3 dead ones - connection refused on a port the case owns, accepted and never spoken to, accepted and closed, "
+                            "answered without TLS, TLS handshake aborted - and the live one first / in between / last; a line listed twice; address chains 'hop;rest'; dead endpoints shared by targets), "
+                            "collector run with -dial_timeout 0.5-1.2 s; which address the collector dials first is its choice (label). Part size: short scripts with one or two unusually large "
+                            "SubscribeResponses, measured where they are sent: 2-5 string/bytes values of 0.5-3 MiB in one plain or atomic notification (above 4 MiB, sometimes above 8 MiB), "
+                            "1000-20000 (thorough 100000) updates in one notification (up to 10 / 24 MiB), rarely one value above 4 MiB; in the sync burst and/or after it, with client-library observers "
+                            "streaming meanwhile, sometimes followed by a stream break after which the target reports the big state again in ONE response; read back through the client cache and all "
+                            "six CLI invocations."),
+                technique="; target address lists with dead endpoints; single responses above gRPC's default message size",
+                level_note=("; a Subscribe call the script did not ask for (the collector lost the stream on its own) does not count as progress for the hang rule, so a collector that never "
+                            "connects or keeps resetting a target ends as 'quiesced-but-incomplete' after two runs from scratch, with the end of the collector's log in the message"),
+                rule="; reach part: additionally some target lists a dead address besides its live one; size part: additionally a target did send a single response above 4 MiB or with >= 1000 updates"),
     "C02": dict(level_text=(" Further generated dimensions: prefix and paths in independent encodings (structured, deprecated strings, both mixed, stray deprecated strings next to elem), absolute "
                             "timestamps from the edges of the int64 range (scenarios without a future threshold), key names differing only in case, NaN/Inf/-0, odd element names, operations through "
                             "the exported per-target entry points."),
@@ -846,6 +868,14 @@ EXT3 = {
                 level_note="; scenarios with such a foreign write are judged by the trace monitors only (nothing denied is ever handed to Send; status codes), convergence is not defined for them"),
     "C12": dict(level_text=(" Every rapid part draws the process's glog verbosity (-v 0-3) per case: the diagnostics inside `if log.V(n)` blocks format the very messages a peer sent "
                             "(about a third of the cases run with verbosity > 0).")),
+    "C14": dict(level_text=(" Part owners (free-running, real scheduler inside a synctest bubble): 2-5 targets each driven by its own goroutine running a sequential script (updates, exact/subtree/glob "
+                            "deletes, Reset, Remove, Add, Sync, Connect, ConnectError, queries) plus a refresher goroutine (UpdateMetadata, UpdateSize, Metadata, all-target queries) and 0-2 bystander "
+                            "targets; 40 aligned-start rounds per case. Because no operation on one target may change another, under every schedule each target holds after each of its owner's operations "
+                            "exactly what the owner's sequential model says, the replay of that target's change feed gives the same values (empty after Reset and Remove), bystanders are unchanged and "
+                            "never announced, and every goroutine finishes."),
+                level_note=("; owners part: schedules are the real scheduler's (a replay re-runs the scripts for 20x the rounds); a deadlock is reported structurally (vstat.Watchdog: every goroutine of the "
+                            "bubble blocked, at least one on a lock, identical twice 5 s apart), never by a timeout"),
+                rule=" owners: a case is one set of scripts x 40 rounds; non-trivial = >=2 owners and the scripts contain both a Reset and a Remove."),
     "C08": dict(level_text=(" Third structured shape (an eighth of the cases): a POLL client that stops reading and keeps sending 1-300 poll triggers (letting a send pass now and then) against an "
                             "unchanging cache, next to other subscribers: what it is sent after its last trigger is bounded by the distinct matching leaves + the response in flight + one sync marker, "
                             "whatever the number of triggers; or it stays away and the next sleep step judges the send timeout of the POLL subscription.")),
